@@ -199,6 +199,11 @@ class Machine:
                 fouts = {n.idx: frag.num_out_ports(n) for n in frag}
                 mapping = h.insert_hugr(frag, Node(p))
                 m = {k.idx: v.idx for k, v in mapping.items()}
+                # the inserted HUGR is a store like any other: no operation was performed on it, its queries answer as before
+                if ([(n.idx, d.parent.idx if d.parent else None, d.op, dict(d.metadata)) for n, d in frag.nodes()] != fnodes
+                        or {n.idx: [c.idx for c in frag.children(n)] for n in frag} != fchildren
+                        or [(a.node.idx, a.offset, b.node.idx, b.offset) for a, b in frag.links()] != flinks):
+                    fails.append(("insert:source-modified", f"{ev}: the inserted HUGR answers its queries differently after insert_hugr (children {fchildren} -> { {n.idx: [c.idx for c in frag.children(n)] for n in frag} })"))
                 if sorted(m) != sorted(i for i, *_ in fnodes) or len(set(m.values())) != len(m):
                     return [("insert:mapping", f"insert_hugr mapping {m} is not a bijection from the inserted nodes")]
                 if any(v in ref.nodes for v in m.values()):
